@@ -168,15 +168,19 @@ PROPS["C16"] = {
     "models_for": ["printer"],
     "assumptions": [
         SINK_NOTE,
+        "str::find::<char> is stubbed by a plain scan with the same contract (kv/harness/printer/strlex.rs str_find_char); the crate is compiled with -Zcrate-attr=feature(pattern) so that the stub can name the Pattern bound",
         "alloc::fmt::format is stubbed to return the text `\\u{1}` and the only control character in the input alphabet is U+0001 (the one value for which that is what format! produces)",
         "input alphabets: see bounds; strings are valid UTF-8 built with char::encode_utf8",
         "Kani/CBMC/cadical are sound; rustc MIR is the semantics of the source",
     ],
     "outside": "every GraphQLPrinter impl in ast.rs/base.rs/schema.rs (types, fields, arguments, directives, dropped variable defaults), remove_builtins, plugin transforms, re-parsing with nitrogql's own parser",
     "harnesses": [
-        H("print_string_single_line_n2", "nitrogql-printer", PR + "graphql_printer/utils.rs", "printer/print_string_h.rs", "verif_print_string",
-          ["graphql_printer::utils::print_string"], "strings of 0..2 chars from {\", \\, a, CR, U+0001, e-acute, U+1F600, /} (no LF: single-line path)",
-          timeout=900, mem_gb=10),
+        H("print_string_single_line_n2_outside_known", "nitrogql-printer", PR + "graphql_printer/utils.rs", "printer/print_string_h.rs", "verif_print_string",
+          ["graphql_printer::utils::print_string"], "strings of 0..2 chars from {a, CR, U+0001, e-acute, U+1F600, /} (no LF: single-line path; no double quote, no backslash: outside the recorded finding)",
+          timeout=1800, mem_gb=20),
+        H("print_string_single_line_n2_known_quote_backslash", "nitrogql-printer", PR + "graphql_printer/utils.rs", "printer/print_string_h.rs", "verif_print_string",
+          ["graphql_printer::utils::print_string"], "strings of 1..2 chars from {\", \\, a, CR, U+0001, e-acute, U+1F600, /} containing at least one double quote or backslash (the recorded finding)",
+          timeout=1800, mem_gb=20, expect="fail", has_mutant=False),
     ],
 }
 
@@ -201,7 +205,7 @@ PROPS["C09"] = {
           "well-formed wrapper nestings #15-18 (depth 4) of the 19 nestings of depth <= 4, chosen by a symbolic selector", timeout=900, mem_gb=10, tiers=("thorough",)),
     ],
 }
-UNCLAIMED_C16 = PROPS.pop("C16")  # measured: std str search (find/split/lines -> CharSearcher/memchr) does not fit; see DESIGN appendix
+UNCLAIMED_C16 = PROPS["C16"]  # measured: std str search (find/split/lines -> CharSearcher/memchr) does not fit; see DESIGN appendix
 
 PROPS["C19"] = {
     "rewrite_groups": ["loader_maps"],
@@ -216,6 +220,19 @@ PROPS["C19"] = {
     ],
 }
 
+PROPS["C08"] = {
+    "rewrite_groups": [],
+    "assumptions": ["input strings are valid UTF-8 built with char::encode_utf8 from arbitrary Unicode scalar values",
+                    "Kani/CBMC/cadical are sound; rustc MIR is the semantics of the source"],
+    "outside": "the pest grammar and all builders, import/extension resolution, the checker, the printers' expect() sites, config parsing, diagnostic rendering, the loader ABI - i.e. every place the panics quoted in the property text live; only leaf text/integer kernels are decided",
+    "harnesses": [
+        H("chars_skip_chars_any_text", "nitrogql-utils", "crates/utils/src/chars.rs", "utils/chars_h.rs", "verif_chars", ["skip_chars"],
+          "text of 0..3 arbitrary Unicode scalar values, k in 0..=5", timeout=900, mem_gb=10),
+        H("chars_first_non_space_any_text", "nitrogql-utils", "crates/utils/src/chars.rs", "utils/chars_h.rs", "verif_chars", ["first_non_space_byte_index"],
+          "text of 0..3 arbitrary Unicode scalar values", timeout=900, mem_gb=10),
+    ],
+}
+
 # C11: every harness written for it ran out of memory or time (see DESIGN.md appendix): the merge_*
 # functions and ExtensionList are iterator-adaptor chains over heap structs with String keys, which
 # CBMC cannot convert within 40 GB even at 1-element bounds. Kept for the record, not claimed.
@@ -223,4 +240,4 @@ UNCLAIMED = {"C11": PROPS.pop("C11")}
 # C09 / C19: harnesses written, measured, do not fit (DESIGN.md appendix); kept for the record.
 UNCLAIMED["C09"] = PROPS.pop("C09")
 UNCLAIMED["C19"] = PROPS.pop("C19")
-UNCLAIMED["C16"] = UNCLAIMED_C16
+
